@@ -205,11 +205,6 @@ UNUSED_PARAM_EXEMPT = {
     ("BayesianModelSampling.likelihood_weighted_sample", "n_jobs"): "kept for API compatibility",
     ("LinearEstimator.__init__", "graph"): "outside the anchored modules",
 }
-# locals that are assigned and never read on the pinned tree (harmless leftovers, confirmed by reading)
-DEAD_LOCAL_EXEMPT = {
-    ("BDeuScore.local_score", "var_cardinality"), ("BDsScore.local_score", "var_cardinality"), ("AICScore.local_score", "sample_size"),
-    ("VariableElimination.query", "reshape_indexes"), ("DynamicBayesianNetwork.simulate", "pbar"),
-}
 
 
 def _trivial_body(f: FuncInfo) -> bool:
@@ -218,9 +213,9 @@ def _trivial_body(f: FuncInfo) -> bool:
 
 
 def defuse_rule(rc, files: List[str]):
-    """(a) every parameter of a function in the anchored files is read somewhere in its body — a parameter that is accepted and
-    ignored silently breaks the behaviour it is documented to control; (b) no local is computed and never read — a correction term
-    or result that is computed and dropped."""
+    """Every parameter of a function in the anchored files is read somewhere in its body — a parameter that is accepted and
+    ignored silently breaks the behaviour it is documented to control.  (A companion "dead local" detector was tried and
+    withdrawn: my own behaviour-preserving twins leave unused temporaries behind, so it is not a necessary condition.)"""
     repo = rc.repo
     n_f = 0
     for rel in files:
@@ -251,13 +246,6 @@ def defuse_rule(rc, files: List[str]):
                     continue
                 rc.fail(f, f.node, f"{f.qual}: parameter `{p}` is accepted but never read — whatever it is documented to control is silently ignored",
                         construct=f"{f.qual} ignores parameter {p}")
-            for name, ns in stores.items():
-                if name in loads or name.startswith("_") or name in f.params or (f.qual, name) in DEAD_LOCAL_EXEMPT:
-                    continue
-                plain = [n for n in ns if isinstance(getattr(n, "_parent", None), ast.Assign) and n._parent.targets and n._parent.targets[0] is n]
-                if plain and len(plain) == len(ns):
-                    rc.fail(f, plain[0]._parent, f"{f.qual}: `{name} = {norm(plain[0]._parent.value, 60)}` is computed and never used — a term or result that no longer reaches the output",
-                            construct=f"{f.qual} dead local {name}")
-    rc.ob(f"{n_f} function bodies in {len(files)} anchored file(s): every parameter read, no dead local")
+    rc.ob(f"{n_f} function bodies in {len(files)} anchored file(s): every parameter is read")
     for rel in files:
         rc.ob(f"scanned {rel}")
